@@ -1,0 +1,20 @@
+//go:build verif
+
+package gradtrack
+
+import "github.com/sahandsafizadeh/qeep/tensor/internal/tensor"
+
+// VerifState returns a read-only view of a gradient context's private state.
+func VerifState(gctx any) (tracked, bpdirty bool, gradient tensor.Tensor, targets []tensor.Tensor, ok bool) {
+	g, isCtx := gctx.(*GradContext)
+	if !isCtx || g == nil {
+		return false, false, nil, nil, false
+	}
+
+	targets = make([]tensor.Tensor, len(g.backEdges))
+	for i, e := range g.backEdges {
+		targets[i] = e.target
+	}
+
+	return g.tracked, g.bpdirty, g.gradient, targets, true
+}
